@@ -43,6 +43,9 @@ pub struct Case {
     /// while the dump is taken, so that attaching to them fails; 0xffff = all of them
     #[serde(default)]
     pub seized: u16,
+    /// a size limit is configured (1 = always exceeded, 2 = generous)
+    #[serde(default)]
+    pub limit: u8,
 }
 
 /// Flattens the soft-error JSON into a multiset of path tags.
@@ -179,7 +182,7 @@ pub fn check(c: &Case) -> Verdict {
             Some(a)
         }
     };
-    let opts = DumpOpts { blamed: pid, direct_auxv: auxv, ..Default::default() };
+    let opts = DumpOpts { blamed: pid, direct_auxv: auxv, size_limit: match c.limit % 3 { 1 => Some(1), 2 => Some(1 << 30), _ => None }, ..Default::default() };
     // ground truth about names before any dump
     let all_tids: Vec<(i32, u8)> = std::iter::once((pid, K_SLEEPER)).chain(ids.iter().map(|(id, k)| (t.tid(*id), *k))).collect();
     let comms: BTreeMap<i32, Vec<u8>> = all_tids.iter().filter_map(|(tid, _)| comm_of(pid, *tid).map(|c| (*tid, c))).collect();
@@ -486,7 +489,7 @@ fn enum_cases() -> impl Iterator<Item = Case> {
         (vec![(K_PARKED, NameG::Utf8("t".into())); 7], false, AuxvPlan::HugePhnum),
     ];
     (0u8..32).flat_map(move |m| {
-        shapes.clone().into_iter().map(move |(threads, cue, auxv)| Case { failmask: m, threads, cue_exiters: cue, auxv, seized: 0 })
+        shapes.clone().into_iter().map(move |(threads, cue, auxv)| Case { failmask: m, threads, cue_exiters: cue, auxv, seized: 0, limit: 0 })
     })
 }
 
@@ -503,9 +506,9 @@ pub fn run(ctx: &mut LaneCtx) {
         SubSpec {
             name: "generated",
             cases: (800, 20_000),
-            rule: "generated targets (0..8 extra threads of kinds parked/sleeper/null-sp/exiter with unset/UTF-8/non-UTF-8 names) x fail-point subset x auxv plan x exiter cue x a subset of threads (possibly all, possibly the main thread) held by a foreign tracer so that attaching to them fails; oracle = expected-error model equality + all other streams equal to the fault-free dump of the same target; non-trivial as above; distinct = hash of case",
-            strategy: (0u8..32, proptest::collection::vec(thread_strategy(), 0..9), any::<bool>(), prop_oneof![3 => Just(AuxvPlan::Kernel), 1 => Just(AuxvPlan::TrueDirect), 1 => Just(AuxvPlan::BadPhdr), 1 => Just(AuxvPlan::HugePhnum), 1 => Just(AuxvPlan::NonUtf8LibraryName)], prop_oneof![5 => Just(0u16), 3 => any::<u16>().prop_map(|m| m & 0x1fe), 1 => any::<u16>(), 1 => Just(0xffffu16)])
-                .prop_map(|(failmask, threads, cue_exiters, auxv, seized)| fix(Case { failmask, threads, cue_exiters, auxv, seized }))
+            rule: "generated targets (0..8 extra threads of kinds parked/sleeper/null-sp/exiter with unset/UTF-8/non-UTF-8 names) x fail-point subset x auxv plan x exiter cue x a subset of threads (possibly all, possibly the main thread) held by a foreign tracer so that attaching to them fails x size limit none / always exceeded / generous; oracle = expected-error model equality + all other streams equal to the fault-free dump of the same target; non-trivial as above; distinct = hash of case",
+            strategy: (0u8..32, proptest::collection::vec(thread_strategy(), 0..9), any::<bool>(), prop_oneof![3 => Just(AuxvPlan::Kernel), 1 => Just(AuxvPlan::TrueDirect), 1 => Just(AuxvPlan::BadPhdr), 1 => Just(AuxvPlan::HugePhnum), 1 => Just(AuxvPlan::NonUtf8LibraryName)], prop_oneof![5 => Just(0u16), 3 => any::<u16>().prop_map(|m| m & 0x1fe), 1 => any::<u16>(), 2 => Just(0xffffu16)], prop_oneof![2 => Just(0u8), 1 => 1u8..3])
+                .prop_map(|(failmask, threads, cue_exiters, auxv, seized, limit)| fix(Case { failmask, threads, cue_exiters, auxv, seized, limit }))
                 .boxed(),
             max_shrink_iters: 200,
             log_current: true,
